@@ -10,6 +10,8 @@ from .c07 import nograd_eval
 ID = "C03"
 ANCHORS = 'predict.predict'.split(",")
 MIN_INSTANCES = 9
+# rule families whose findings in this module are derived by an engine (not by comparing spellings): exempt from the rewrite gate
+SEMANTIC_RULES = {"R-PURE", "R-EVAL", "R-NOGRAD", "R-MODEL"}
 EXPLANATION = (
     "R-ARGWIN: in predict's batch loop the slice applied to X and the slice applied to every element of args are the "
     "same linear forms (lo = loop variable, hi = lo + step) and the loop is range(0, N, step) with the window width equal "
